@@ -7,7 +7,7 @@
    bitmap contains the whole viewport (it may be larger: cells outside the viewport are then shown unchanged,
    since they are not in the region). *)
 From Coq Require Import ZArith List Bool Lia.
-From PCB Require Import lib.Result lib.PyInt model.Flood proofs.Flood_base proofs.Flood_proofs.
+From PCB Require Import lib.Result lib.PyInt model.Flood proofs.Flood_base proofs.Flood_proofs proofs.Flood_tile.
 Import ListNotations.
 Open Scope Z_scope.
 
@@ -20,28 +20,28 @@ Print Assumptions C32_region_inside.
 (* SOUNDNESS (all bitmaps, viewports, seeds, attributes, any fuel): every cell PAINT changes lies in the
    region of the seed and is changed to the fill attribute *)
 Theorem C32_sound : forall fuel v m sx sy fill border m',
-  covers m v -> flood_fill fuel v m sx sy fill border = Ok m' ->
+  covers m v -> flood_fill fuel v m sx sy (solid_pat fill) border = Ok m' ->
   forall x y, pix m' x y <> pix m x y -> region m v border sx sy x y /\ pix m' x y = fill.
 Proof. exact flood_sound. Qed.
 Print Assumptions C32_sound.
 
 (* seed outside the viewport or on a border cell: nothing happens *)
 Theorem C32_noop_cases : forall fuel v m sx sy fill border,
-  in_view v sx sy = false \/ pix m sx sy = border -> flood_fill fuel v m sx sy fill border = Ok m.
+  in_view v sx sy = false \/ pix m sx sy = border -> flood_fill fuel v m sx sy (solid_pat fill) border = Ok m.
 Proof. exact flood_noop. Qed.
 Print Assumptions C32_noop_cases.
 
 (* TERMINATION: the work-list loop ends within (width+2)*(height+2)*2 iterations (paint_fuel); the result is
    never OutOfFuel *)
 Theorem C32_terminates : forall v m sx sy fill border,
-  covers m v -> exists m', flood_fill (paint_fuel v) v m sx sy fill border = Ok m'.
+  covers m v -> exists m', flood_fill (paint_fuel v) v m sx sy (solid_pat fill) border = Ok m'.
 Proof. exact flood_terminates. Qed.
 Print Assumptions C32_terminates.
 
 (* COMPLETENESS (full statement, all region shapes): when no cell of the region has the fill attribute
    beforehand, every cell of the region is filled *)
 Theorem C32_complete : forall fuel v m sx sy fill border m',
-  covers m v -> flood_fill fuel v m sx sy fill border = Ok m' ->
+  covers m v -> flood_fill fuel v m sx sy (solid_pat fill) border = Ok m' ->
   (forall x y, region m v border sx sy x y -> pix m x y <> fill) ->
   forall x y, region m v border sx sy x y -> pix m' x y = fill.
 Proof. exact flood_complete. Qed.
@@ -67,6 +67,86 @@ Proof.
 Qed.
 Print Assumptions C32_paint.
 
+(* ======================= tiled PAINT (tile string, optional background string) =======================
+   A pattern `p : pat` is solid or a tile (rows of attributes as returned by the mode's build_tile, taken as
+   given) with an optional background row; `tile_at p x y` = tile[y mod height][x mod width]. *)
+
+(* SOUNDNESS for every pattern: every changed cell lies in the region and gets the tile's attribute for its
+   position *)
+Theorem C32_tile_sound : forall fuel v m sx sy p border m',
+  covers m v -> flood_fill fuel v m sx sy p border = Ok m' ->
+  forall x y, pix m' x y <> pix m x y -> region m v border sx sy x y /\ pix m' x y = tile_at p x y.
+Proof. exact flood_sound_pat. Qed.
+Print Assumptions C32_tile_sound.
+
+Theorem C32_tile_noop_cases : forall fuel v m sx sy p border,
+  in_view v sx sy = false \/ pix m sx sy = border -> flood_fill fuel v m sx sy p border = Ok m.
+Proof. exact flood_noop_pat. Qed.
+Print Assumptions C32_tile_noop_cases.
+
+(* the code's own stop condition, exactly: the run [x, x+w-1] of row y is NOT entered iff it shows the tile
+   (never on an all-zero row of a tile) and, with a background row, is narrower than it or differs from it *)
+Theorem C32_tile_stop_condition : forall m p y x w, 0 <= w ->
+  has_same m p y x w = true <->
+  (p_solid p = true \/ row_nonzero (tile_row p y) = true) /\
+  (forall i, 0 <= i < w -> pix m (x + i) y = tile_at p (x + i) y) /\
+  match p_bg p with
+  | None => True
+  | Some bg => w < zlen bg \/
+               ~ (forall i, 0 <= i < w -> pix m (x + i) y = nth (Z.to_nat ((x mod tile_w p + i) mod zlen bg)) bg 0)
+  end.
+Proof. exact has_same_spec. Qed.
+Print Assumptions C32_tile_stop_condition.
+
+(* tiles without all-zero rows and without background: the stop condition is just "shows the tile" *)
+Theorem C32_tile_plain_class : forall p,
+  (p_solid p = true \/ forall y, row_nonzero (tile_row p y) = true) -> p_bg p = None -> stops_on_tile p.
+Proof.
+  intros p [H|H] Hb; [exact (stops_on_tile_solid p H Hb) | exact (stops_on_tile_nonzero p H Hb)].
+Qed.
+Print Assumptions C32_tile_plain_class.
+
+(* TERMINATION and COMPLETENESS for that class (PARTIAL: the full statements below are false in general) *)
+Theorem C32_tile_terminates_partial : forall fuel v m sx sy p border,
+  stops_on_tile p -> covers m v -> (paint_fuel v <= fuel)%nat ->
+  exists m', flood_fill fuel v m sx sy p border = Ok m'.
+Proof. exact flood_terminates_pat. Qed.
+Print Assumptions C32_tile_terminates_partial.
+
+Theorem C32_tile_complete_partial : forall fuel v m sx sy p border m',
+  stops_on_tile p -> covers m v -> flood_fill fuel v m sx sy p border = Ok m' ->
+  (forall x y, region m v border sx sy x y -> pix m x y <> tile_at p x y) ->
+  forall x y, region m v border sx sy x y -> pix m' x y = tile_at p x y.
+Proof. exact flood_complete_pat. Qed.
+Print Assumptions C32_tile_complete_partial.
+
+(* the full termination statement for all tiles ... *)
+Definition C32_tile_terminates_statement : Prop := forall v m sx sy p border,
+  covers m v -> exists fuel m', flood_fill fuel v m sx sy p border = Ok m'.
+(* ... is refuted: a 3x3 ring around a border pixel painted with an all-zero tile never ends
+   (pcbasic hangs on PAINT (0,0),CHR$(0),1 for this picture: known finding K32a) *)
+Theorem C32_tile_terminates_refuted : ~ C32_tile_terminates_statement.
+Proof.
+  intro H. destruct (H ring_v ring_m 0 0 ring_p 1) as (fuel & m' & Hr).
+  - intros x y Hv. apply in_view_iff in Hv. cbn in Hv.
+    assert (Hx : x = 0 \/ x = 1 \/ x = 2) by lia. assert (Hy : y = 0 \/ y = 1 \/ y = 2) by lia.
+    destruct Hx as [->|[->| ->]]; destruct Hy as [->|[->| ->]]; reflexivity.
+  - rewrite ring_never_terminates in Hr. discriminate.
+Qed.
+Print Assumptions C32_tile_terminates_refuted.
+
+(* the statement level for tiles *)
+Theorem C32_paint_tile : forall text_mode num_attr fg v m x y tile b bg m',
+  covers m v -> paint_tile text_mode num_attr fg v m x y tile b bg = Ok m' ->
+  let border := attr_index num_attr fg (match b with Some bv => bv | None => -1 end) in
+  forall px py, pix m' px py <> pix m px py ->
+    region m v border x y px py /\ pix m' px py = tile_at (mkPat false tile bg) px py.
+Proof.
+  intros text_mode num_attr fg v m x y tile b bg m' Hcov Hp. apply paint_tile_ok in Hp.
+  exact (flood_sound_pat _ _ _ _ _ _ _ _ Hcov Hp).
+Qed.
+Print Assumptions C32_paint_tile.
+
 (* non-vacuity: a 5x3 viewport inside a 7x5 bitmap, a wall of attribute 3, seed (0,0), fill 2.
    The hypotheses of the theorems hold (covers; no region cell has the fill attribute), the region is not
    empty, PAINT changes the picture, and the cell behind the diagonal wall stays. *)
@@ -91,5 +171,18 @@ Proof.
   - apply (region_step _ _ _ _ _ 0 0); [apply region_seed; split; [reflexivity|vm_compute; discriminate]| |].
     + left. split; [reflexivity|left; reflexivity].
     + split; [reflexivity|vm_compute; discriminate].
+  - vm_compute. reflexivity.
+Qed.
+
+(* non-vacuity for tiles: a 2-row tile without zero rows is in the class, paints the open part in stripes *)
+Example C32_tile_nonvacuous :
+  stops_on_tile (mkPat false [[1;2;1;2];[2;2;2;2]] None) /\
+  paint_tile false 4 3 C32_ex_v C32_ex_m 0 0 [[1;2;1;2];[2;2;2;2]] (Some 3) None =
+    Ok (mkBitmap (-1) (-1) [[1;1;1;1;1;1;1];[1;1;2;3;0;0;1];[1;2;3;0;0;3;1];[1;3;0;0;3;0;1];[1;1;1;1;1;1;1]]).
+Proof.
+  split.
+  - apply stops_on_tile_nonzero; [|reflexivity]. intro y. unfold tile_row, tile_h, zlen. cbn [p_tile length].
+    pose proof (Z.mod_pos_bound y 2 ltac:(lia)) as Hb. change (Z.of_nat 2) with 2.
+    assert (Hc : y mod 2 = 0 \/ y mod 2 = 1) by lia. destruct Hc as [->| ->]; reflexivity.
   - vm_compute. reflexivity.
 Qed.
